@@ -31,8 +31,17 @@ def register(vc):
         "C03": "same generator as C09 with ~8% injected incompatibilities; for every successful merge the merged schema, possible "
                "types, implements and the routing table are read back through a wrapping planner. Non-trivial = at least two "
                "services sharing a name.",
+        "C19": "PRNG(seed)-generated federations and valid queries executed through Gateway.GetPlans+Execute with 0-5 recording "
+               "middlewares of both kinds (response middlewares snapshot the data they are handed, optionally set a key, ~1/6 fail; "
+               "request middlewares tag an http.Request), registered through one or two WithMiddlewares options interleaved at random "
+               "with the other options; services implement QueryerWithMiddlewares and report which request middlewares each call "
+               "carried; service faults (transport error, errors+partial data, errors+null) assigned to 0/15/40/100% of the calls by a "
+               "seeded hash. Non-trivial = at least two middlewares and at least one outbound call; distinct = distinct case JSON.",
     })
     vc.ASSUMPTIONS.update({
+        "C19": ["the executor's (data, error) is recorded by a wrapping Executor; the data left by the built-in scrubber is what the first response middleware is handed",
+                "a failure of the built-in scrubber itself (a defect tracked under C04) ends the request before any user middleware: such runs are only checked for the request middlewares",
+                "the gateway's own queryer (node / introspection) is not a network queryer and takes no request middlewares"],
         "C09": ["source schemas are what gqlparser's LoadSchema accepts (no duplicate field/argument/enum value/member names); the check evaluates wf_defb on every generated source",
                 "map iteration order of mergeSchemas only selects which error is reported; error texts are not compared",
                 "applied-directive comparison (mergeDirectiveListsEqual) is modelled but not part of the property's list of incompatibilities"],
